@@ -512,3 +512,35 @@ def new_compiler():
     prime_testbase(with_reflection=True)
     from edb.testbase import lang
     return lang.new_compiler()
+
+
+def prune_cache(dry_run: bool = False) -> list:
+    """Remove stale generated files of THIS substrate from /verif/cache
+    (lrtables-*.json, edgeql-spec-*.marshal, stdschema-*.pickle,
+    reflschema-*.pickle whose key is not the current one).  Other files in the
+    cache directory are never touched.  Returns the removed paths."""
+    install()
+    from edb.edgeql import parser as qlparser
+    qlparser.preload_spec()
+    import edb._edgeql_parser as rp
+    keep = set()
+    info = rp._SPEC_INFO
+    if info.get('cache_key'):
+        keep.add(f"lrtables-{info['cache_key']}.json")
+    if info.get('spec_cache'):
+        keep.add(pathlib.Path(info['spec_cache']).name)
+    key = std_schema_key()
+    keep.add(f'stdschema-{key}.pickle')
+    keep.add(f'reflschema-{key}.pickle')
+    removed = []
+    for pattern in ('lrtables-*.json', 'edgeql-spec-*.marshal',
+                    'stdschema-*.pickle', 'reflschema-*.pickle'):
+        for p in sorted(CACHE_DIR.glob(pattern)):
+            if p.name not in keep:
+                removed.append(str(p))
+                if not dry_run:
+                    try:
+                        p.unlink()
+                    except OSError:
+                        pass
+    return removed
